@@ -55,6 +55,9 @@ def check_run(rep, r, pc, stab, crit):
     rep.check(len(probs) == 1, 'C01.R3', probs[0].where if probs else where_run,
               'exactly one LpProblem is created per solve() [%s]' % cfg, got='%d LpProblem constructions' % len(probs),
               want='1', construct='newprob-count')
+    over = [e for e in r.of('store') if any(e.eff.target == p_.eff.target for p_ in probs)]
+    rep.check(not over, 'C01.R3', over[0].where if over else where_run, 'the problem object is never replaced once it is built [%s]' % cfg,
+              got=['%s = %s' % (show(e.eff.target), show(e.eff.value)[:40]) for e in over] or 'assigned once', want='one assignment', construct='LpProblem attribute overwritten', loc=over[0].loc if over else None)
     recvs = {show(e.eff.recv) for e in r.of('addc', 'solve', 'setobj')}
     rep.check(len(recvs) == 1, 'C01.R3', where_run, 'constraints, objective and solve use the same problem object [%s]' % cfg,
               got=sorted(recvs), want='one receiver', construct='receiver-set')
@@ -75,7 +78,8 @@ def check_run(rep, r, pc, stab, crit):
                       want="cat='Binary' (or Integer in [0,1])", construct='domain of %s' % role, loc=ev.loc)
         if role == 'c' and carried in r.canon.arr_letter:
             sort = r.canon.arr_letter[carried][1]
-            rep.check(sort in ('P', None), 'C01.R1', ev.where, 'one closure variable is declared per project [%s]' % cfg, got='one per %s' % {'L': 'lecturer', 'S': 'student', None: 'element of an unrecognised range'}.get(sort, sort),
+            off = r.canon.off_by_some(carried)
+            rep.check(sort in ('P', None) and off is None, 'C01.R1', ev.where, 'one closure variable is declared per project [%s]' % cfg, got=('declared for ' + off) if off else 'one per %s' % {'L': 'lecturer', 'S': 'student', None: 'element of an unrecognised range'}.get(sort, sort),
                       want='for proj_index in range(num_projects)', construct='closure variables per %s' % sort, loc=ev.loc)
     have_x = any(a == 'lp_var' or r.canon.attr_letter.get(a) == 'x' for a in r.canon.var_attrs)
     rep.check(have_x, 'C01.R1', where_run, 'decision variables are declared for every pair [%s]' % cfg, got=list(r.canon.var_attrs),
